@@ -174,7 +174,7 @@ pub fn cmd_zippy_edges(args: &[String]) -> i32 {
         }
         if !ok {
             nmis += 1;
-            if samples.len() < 50 {
+            if samples.len() < 400 {
                 samples.push(json!({"h": h, "expected": x, "observed": obs}));
             }
         }
